@@ -521,7 +521,13 @@ def witnesses(ctx):
 def run(ctx):
     ok, out = ctx.lake_build(["E3nnVerif.Props.C13"])
     ctx.obligation("build:Props.C13", ok, out[-3000:])
-    ctx.audit(["E3nnVerif.Props.C13"])
+    from common import LEAN
+
+    own = [LEAN / "E3nnVerif" / f for f in (
+        "Model/Scalar.lean", "Model/BatchNorm.lean", "Theory/ScalarReal.lean", "Theory/BatchNormLayout.lean",
+        "Theory/BatchNormSpec.lean", "Theory/BatchNormReal.lean", "Theory/BatchNormEquiv.lean",
+        "Theory/BatchNormStat.lean", "Theory/DropoutReal.lean", "Props/C13.lean")] + [LEAN / "drivers" / "C13.lean"]
+    ctx.audit(["E3nnVerif.Props.C13"], files=own)  # token scan over exactly the sources C13 depends on
 
     import torch  # noqa: F401
 
